@@ -100,6 +100,10 @@ DanglingLink(l, t, a, b) == /\ Record /\ CanRecord /\ l \notin Dom(links)
                             /\ (a \notin Dom(nodes) \/ b \notin Dom(nodes)) /\ (a \in Dom(nodes) \/ b \in Dom(nodes))
                             /\ Refuse("add_link", <<l, t, a, b, "">>)
 
+\* a source name that is taken
+DupSource(x, n) == /\ Record /\ CanRecord /\ x \in Dom(srcs) /\ n \in Dom(nodes) /\ Refuse("add_source", <<x, n, "">>)
+\* (a head pump may name a curve that is added later - GIS import does so -, therefore a missing curve is not a refusal)
+
 \* removal is refused while the element is used or required by a control; a refusal changes nothing
 RemoveNode(n) ==
   /\ CanRecord /\ n \in Dom(nodes)
@@ -143,6 +147,24 @@ SetHeadPattern(n, p) ==
   /\ CanRecord /\ n \in Dom(nodes) /\ nodes[n].type = "R" /\ p \in pats
   /\ nodes' = [nodes EXCEPT ![n].pats = {p}]
   /\ UNCHANGED <<links, pats, curves, srcs, ctls>> /\ Log("set_head_pattern", <<n, p>>, "ok")
+\* moving a source to another node moves its usage record
+SetSourceNode(x, n) ==
+  /\ CanRecord /\ x \in Dom(srcs) /\ n \in Dom(nodes)
+  /\ srcs' = [srcs EXCEPT ![x].node = n]
+  /\ UNCHANGED <<nodes, links, pats, curves, ctls>> /\ Log("set_source_node", <<x, n>>, "ok")
+\* clearing a reference (assigning None) releases the usage record
+ClearHeadPattern(n) ==
+  /\ CanRecord /\ n \in Dom(nodes) /\ nodes[n].type = "R"
+  /\ nodes' = [nodes EXCEPT ![n].pats = {}]
+  /\ UNCHANGED <<links, pats, curves, srcs, ctls>> /\ Log("clear_head_pattern", <<n>>, "ok")
+ClearSpeedPattern(l) ==
+  /\ CanRecord /\ l \in Dom(links) /\ links[l].type \in {"hpump", "ppump"}
+  /\ links' = [links EXCEPT ![l].pat = ""]
+  /\ UNCHANGED <<nodes, pats, curves, srcs, ctls>> /\ Log("clear_speed_pattern", <<l>>, "ok")
+ClearVolCurve(n) ==
+  /\ CanRecord /\ n \in Dom(nodes) /\ nodes[n].type = "T"
+  /\ nodes' = [nodes EXCEPT ![n].curve = ""]
+  /\ UNCHANGED <<links, pats, curves, srcs, ctls>> /\ Log("clear_vol_curve", <<n>>, "ok")
 AddDemand(n, p) ==
   /\ CanRecord /\ n \in Dom(nodes) /\ nodes[n].type = "J" /\ p \in pats
   /\ nodes' = [nodes EXCEPT ![n].pats = @ \cup {p}]
@@ -177,6 +199,9 @@ Next ==
   \/ \E l \in LinkNames, c \in Dom(curves) : SetPumpCurve(l, c)
   \/ \E n \in NodeNames, c \in Dom(curves) : SetVolCurve(n, c)
   \/ \E n \in NodeNames, p \in pats : SetHeadPattern(n, p) \/ AddDemand(n, p)
+  \/ \E n \in NodeNames : ClearHeadPattern(n) \/ ClearVolCurve(n)
+  \/ \E l \in LinkNames : ClearSpeedPattern(l)
+  \/ \E x \in SrcNames, n \in Dom(nodes) : DupSource(x, n) \/ SetSourceNode(x, n)
 Spec == Init /\ [][Next]_vars
 
 \* ------------------------------------------------------------------ properties (C14) on the abstract model
